@@ -6,7 +6,8 @@ validity Valid(tree) that judges what encode() returns.  A: every generated docu
 Valid.  B: for every document and every lossless convention (JsonML, data elements; default,
 BadgerFish, GData when the same-named children are contiguous): decode -> encode must give a tree
 that the SPEC accepts (batch-judged by TLC, Judge_Converters.tla), equal to the original in
-structure, attribute sets and typed values, and decoding it again must give the same data.
+structure, attribute sets and typed values, and decoding it again must give the same data (for a part of
+the documents also through to_json / from_json).
 Soundness: the decoded data is mutated (drop, duplicate, retype, reorder entries) and encoded in
 strict mode: either a validation error, or a tree the spec accepts.
 """
@@ -295,6 +296,18 @@ def judge(job):
             if name != "dataelement" and strip_xmlns(again) != strip_xmlns(data):
                 out.append((name, f"decode(encode(decode(x))) = {again!r} differs from decode(x) = {data!r}"[:500],
                             xml))
+            # the JSON front end of the same converters: to_json / from_json
+            if leafy and name != "dataelement":      # data elements are objects, not JSON data
+                try:
+                    js = xmlschema.to_json(xml, schema=s, converter=conv)
+                    jelem = xmlschema.from_json(js, schema=s, converter=conv)
+                except Exception as e:      # noqa: BLE001
+                    out.append((name, f"to_json / from_json raised {type(e).__name__}: {str(e)[:160]}", xml))
+                else:
+                    trees.append((name, "json-roundtrip", abstract(jelem), xml))
+                    if typed(jelem) != original:
+                        out.append((name, f"from_json(to_json(x)) differs from x: {typed(jelem)} vs {original}"[:500],
+                                    xml))
             # soundness of strict encoding under mutation
             if name in ("jsonml", "default", "badgerfish"):
                 for k in range(nmut):
